@@ -1,0 +1,143 @@
+//go:build verif
+
+package git
+
+// Contracts for the gvc verifier (/verif). Comment-only; never compiled into
+// a normal build.
+//
+// Property C26 as a gate property of the worktree filesystem wrapper: every
+// method calls the embedded filesystem only with paths for which validPath
+// (string rules: no control byte, no "." / ".." component, no .git variant
+// except as a final non-first component, NTFS rules) and
+// validNoLeadingSymlink returned nil; reads additionally tolerate the
+// worktree root.
+
+//gvc:func (*worktreeFilesystem).validPath
+//gvc:  props C26
+//gvc:  theory int
+//gvc:  opt coarse
+//gvc:  opt frame args
+//gvc:  loop 2 invariant scanned: forall(k, 0, i, p[k] >= 0x20 && p[k] != 0x7f)
+//gvc:  grants checked: result == nil ==> forall(a, 0, len(paths), spec_wtpath(strid(paths[a])))
+//gvc:end
+
+//gvc:func (*worktreeFilesystem).validNoLeadingSymlink
+//gvc:  props C26
+//gvc:  theory int
+//gvc:  opt coarse
+//gvc:  opt frame args
+//gvc:  grants checked: result == nil ==> forall(a, 0, len(paths), spec_wtnosym(strid(paths[a])))
+//gvc:end
+
+//gvc:func (*worktreeFilesystem).validWritePath
+//gvc:  props C26
+//gvc:  theory int
+//gvc:  opt coarse
+//gvc:  opt frame args
+//gvc:  ensures both: result == nil ==> forall(a, 0, len(paths), spec_wtpath(strid(paths[a])) && spec_wtnosym(strid(paths[a])))
+//gvc:end
+
+//gvc:func (*worktreeFilesystem).validReadPath
+//gvc:  props C26
+//gvc:  theory int
+//gvc:  opt coarse
+//gvc:  opt frame args
+//gvc:  ensures both: result == nil ==> wt_root(p) || (spec_wtpath(strid(p)) && spec_wtnosym(strid(p)))
+//gvc:end
+
+//gvc:func (*worktreeFilesystem).Create
+//gvc:  props C26
+//gvc:  theory int
+//gvc:  opt coarse
+//gvc:  opt frame args
+//gvc:  sink Create requires gate: spec_wtpath(strid(arg0)) && spec_wtnosym(strid(arg0))
+//gvc:end
+
+//gvc:func (*worktreeFilesystem).Open
+//gvc:  props C26
+//gvc:  theory int
+//gvc:  opt coarse
+//gvc:  opt frame args
+//gvc:  sink Open requires gate: wt_root(arg0) || (spec_wtpath(strid(arg0)) && spec_wtnosym(strid(arg0)))
+//gvc:end
+
+//gvc:func (*worktreeFilesystem).OpenFile
+//gvc:  props C26
+//gvc:  theory int
+//gvc:  opt coarse
+//gvc:  opt frame args
+//gvc:  sink OpenFile requires gate: spec_wtpath(strid(arg0)) && spec_wtnosym(strid(arg0))
+//gvc:end
+
+//gvc:func (*worktreeFilesystem).Stat
+//gvc:  props C26
+//gvc:  theory int
+//gvc:  opt coarse
+//gvc:  opt frame args
+//gvc:  sink Stat requires gate: wt_root(arg0) || (spec_wtpath(strid(arg0)) && spec_wtnosym(strid(arg0)))
+//gvc:end
+
+//gvc:func (*worktreeFilesystem).Remove
+//gvc:  props C26
+//gvc:  theory int
+//gvc:  opt coarse
+//gvc:  opt frame args
+//gvc:  sink Remove requires gate: spec_wtpath(strid(arg0)) && spec_wtnosym(strid(arg0))
+//gvc:end
+
+//gvc:func (*worktreeFilesystem).ReadDir
+//gvc:  props C26
+//gvc:  theory int
+//gvc:  opt coarse
+//gvc:  opt frame args
+//gvc:  sink ReadDir requires gate: wt_root(arg0) || (spec_wtpath(strid(arg0)) && spec_wtnosym(strid(arg0)))
+//gvc:end
+
+//gvc:func (*worktreeFilesystem).Lstat
+//gvc:  props C26
+//gvc:  theory int
+//gvc:  opt coarse
+//gvc:  opt frame args
+//gvc:  sink Lstat requires gate: wt_root(arg0) || (spec_wtpath(strid(arg0)) && spec_wtnosym(strid(arg0)))
+//gvc:end
+
+//gvc:func (*worktreeFilesystem).Readlink
+//gvc:  props C26
+//gvc:  theory int
+//gvc:  opt coarse
+//gvc:  opt frame args
+//gvc:  sink Readlink requires gate: wt_root(arg0) || (spec_wtpath(strid(arg0)) && spec_wtnosym(strid(arg0)))
+//gvc:end
+
+//gvc:func (*worktreeFilesystem).MkdirAll
+//gvc:  props C26
+//gvc:  theory int
+//gvc:  opt coarse
+//gvc:  opt frame args
+//gvc:  sink MkdirAll requires gate: spec_wtpath(strid(arg0)) && spec_wtnosym(strid(arg0))
+//gvc:end
+
+//gvc:func (*worktreeFilesystem).Rename
+//gvc:  props C26
+//gvc:  theory int
+//gvc:  opt coarse
+//gvc:  opt frame args
+//gvc:  sink Rename requires gate: spec_wtpath(strid(arg0)) && spec_wtnosym(strid(arg0)) && spec_wtpath(strid(arg1)) && spec_wtnosym(strid(arg1))
+//gvc:end
+
+//gvc:func (*worktreeFilesystem).Symlink
+//gvc:  props C26
+//gvc:  theory int
+//gvc:  opt coarse
+//gvc:  opt frame args
+//gvc:  sink Symlink requires gate: spec_wtpath(strid(arg1)) && spec_wtnosym(strid(arg1))
+//gvc:end
+
+//gvc:func (*worktreeFilesystem).Chroot
+//gvc:  props C26
+//gvc:  theory int
+//gvc:  opt coarse
+//gvc:  opt frame args
+//gvc:  sink Chroot requires gate: wt_root(arg0) || (spec_wtpath(strid(arg0)) && spec_wtnosym(strid(arg0)))
+//gvc:  sink Lstat requires gate: wt_root(arg0) || (spec_wtpath(strid(arg0)) && spec_wtnosym(strid(arg0)))
+//gvc:end
